@@ -85,10 +85,13 @@ Proof.
 Qed.
 
 Definition hash_slash_tags : list string := ["# thailint: "; "# design-lint: "; "// thailint: "; "// design-lint: "].
-Definition hash_tags : list string := ["# thailint: "; "# design-lint: "].
+(* both_styles of the source's (now complete) needle list: the // entries twice more *)
+Definition hash_slash_tags8 : list string := hash_slash_tags ++ ["// thailint: "; "// design-lint: "; "// thailint: "; "// design-lint: "].
 
 Lemma tagged_in st : In (tagged st) hash_slash_tags.
 Proof. destruct st; cbn; auto. Qed.
+Lemma tagged_in8 st : In (tagged st) hash_slash_tags8.
+Proof. apply in_or_app. left. apply tagged_in. Qed.
 
 (* the line-kind specific facts about what follows the key word *)
 Ltac post_head := rewrite lower_post, ?lower_names_br, ?lower_start_tail;
@@ -96,13 +99,13 @@ Ltac post_head := rewrite lower_post, ?lower_names_br, ?lower_start_tail;
   repeat match goal with |- context [if ?b then _ else _] => destruct b end; reflexivity.
 
 (* ---------- file-level marker ---------- *)
-Lemma file_marker_feature q l : line_ok l = true -> line_avoids q l = true ->
+Lemma file_marker_feature q l : line_ok l = true ->
   has_ignore_directive_marker q (render_line l) = match l with LFile _ _ => true | _ => false end.
 Proof.
-  intros H A. unfold has_ignore_directive_marker, marker.
+  intros H. unfold has_ignore_directive_marker, marker.
   change file_marker_lowered with true.
-  change (both_styles file_marker_needles) with (needles_of hash_slash_tags "-file").
-  change file_marker_needles with (needles_of hash_tags "-file").
+  change (both_styles file_marker_needles) with (needles_of hash_slash_tags8 "-file").
+  change file_marker_needles with (needles_of hash_slash_tags "-file").
   destruct l as [c|c st n|ind st n|ind st br n|ind st|st n].
   - cbn [line_ok] in H. unfold code_ok in H. apply andb_true_iff in H as [Hk _]. cbn [render_line].
     destruct (q_file_hash_only q); now apply any_plain.
@@ -110,11 +113,11 @@ Proof.
   - destruct (q_file_hash_only q); apply any_absent; try assumption; try reflexivity; post_head.
   - destruct (q_file_hash_only q); apply any_absent; try assumption; try reflexivity; post_head.
   - destruct (q_file_hash_only q); apply any_absent; try assumption; try reflexivity; post_head.
-  - unfold line_avoids in A. apply andb_true_iff in A as [_ A]. apply andb_true_iff in A as [A _].
-    destruct (q_file_hash_only q) eqn:Q.
-    + destruct st; [|discriminate]. apply (any_present _ _ _ "# thailint: "); [reflexivity|cbn; auto|reflexivity|].
-      rewrite lower_post. apply prefixb_app.
+  - destruct (q_file_hash_only q).
     + apply (any_present _ _ _ (tagged st)); [reflexivity|apply tagged_in| |].
+      * rewrite (lower_pre _ H). exact (suffixb_app "" (tagged st)).
+      * rewrite lower_post. apply prefixb_app.
+    + apply (any_present _ _ _ (tagged st)); [reflexivity|apply tagged_in8| |].
       * rewrite (lower_pre _ H). exact (suffixb_app "" (tagged st)).
       * rewrite lower_post. apply prefixb_app.
 Qed.
@@ -160,18 +163,18 @@ Lemma check_bracket_named t r : check_bracket_rules t r = named (bracket_rules (
 Proof. unfold check_bracket_rules, named, bracket_rules. change rm_bracket_sep with ",". now rewrite existsb_map. Qed.
 
 (* ---------- file-level rule list ---------- *)
-Lemma file_rules_feature q st n r : names_ok n = true -> line_avoids q (LFile st n) = true ->
+Lemma file_rules_feature q st n r : names_ok n = true ->
   check_specific_rule_ignore q (render_line (LFile st n)) r = named (bracket_rules n) r.
 Proof.
-  intros Hn A. unfold check_specific_rule_ignore.
+  intros Hn. unfold check_specific_rule_ignore.
   change re_file_bracket with ("ignore-file", true). change re_file_space with ("ignore-file", true). cbn [fst snd].
   rewrite (bracket_at (LFile st n) true "ignore-file" Hn eq_refl eq_refl).
   destruct n as [|t].
   - change (re_bracket true "ignore-file" ("ignore" ++ post_of (LFile st Bare))) with (@None string).
     rewrite (space_at (LFile st Bare) true "ignore-file" Hn eq_refl eq_refl).
     change (re_space true "ignore-file" ("ignore" ++ post_of (LFile st Bare))) with (@None string).
-    unfold line_avoids in A. apply andb_true_iff in A as [_ A]. apply andb_true_iff in A as [_ A].
-    destruct (q_bare_file_unsupported q); [discriminate|reflexivity].
+    change file_bare_general with true.
+    destruct (q_bare_file_unsupported q); destruct st; reflexivity.
   - destruct (names_parts t Hn) as (Hne & Hk & Hb).
     change ("ignore" ++ post_of (LFile st (Names t)))%string with ("ignore-file" ++ "[" ++ t ++ "]")%string.
     rewrite (bracket_hit true "ignore-file" t eq_refl Hne Hb). apply check_bracket_named.
@@ -193,56 +196,66 @@ Proof.
   rewrite (lower_pre _ H). apply suffixb_app.
 Qed.
 
-Lemma same_rules_feature q c st n r : line_ok (LSame c st n) = true -> line_avoids q (LSame c st n) = true ->
+Lemma same_rules_feature q c st n r : line_ok (LSame c st n) = true ->
   check_specific_rule_in_line q (render_line (LSame c st n)) r = named (bracket_rules n) r.
 Proof.
-  intros H A. unfold check_specific_rule_in_line.
+  intros H. unfold check_specific_rule_in_line.
   change re_line_bracket with ("ignore", true). change re_line_space with ("ignore", true). cbn [fst snd].
   rewrite (bracket_at (LSame c st n) true "ignore" H eq_refl eq_refl).
   destruct n as [|t].
   - change (re_bracket true "ignore" ("ignore" ++ post_of (LSame c st Bare))) with (@None string).
     rewrite (space_at (LSame c st Bare) true "ignore" H eq_refl eq_refl).
     change (re_space true "ignore" ("ignore" ++ post_of (LSame c st Bare))) with (@None string).
-    unfold line_avoids in A. apply andb_true_iff in A as [_ A].
-    destruct (q_bare_line_unsupported q); [discriminate|reflexivity].
+    (* the fallback (repaired source and ideal alike): the right-stripped lowered line ends with "thailint: ignore" *)
+    change line_bare_suffixes with ["thailint: ignore"; "design-lint: ignore"]. change ignore_all_needle with "ignore-all".
+    cbv zeta. cbn [existsb named bracket_rules].
+    assert (R : rstrip (render_line (LSame c st Bare)) = render_line (LSame c st Bare)).
+    { cbn [render_line names_br]. rewrite sapp_nil_r.
+      assert (E : (c ++ "  " ++ cm st ++ " thailint: ignore")%string = ((c ++ "  " ++ cm st ++ " thailint: ignor") ++ String "e" "")%string)
+        by (rewrite !sapp_assoc; reflexivity).
+      rewrite E. now apply rstrip_last. }
+    rewrite R.
+    assert (Sx : suffixb "thailint: ignore" (lower (render_line (LSame c st Bare))) = true).
+    { cbn [render_line names_br]. rewrite sapp_nil_r, !lower_app, lower_cm.
+      assert (E : (lower c ++ lower "  " ++ cm st ++ lower " thailint: ignore")%string = ((lower c ++ "  " ++ cm st ++ " ") ++ "thailint: ignore")%string)
+        by (rewrite !sapp_assoc; reflexivity).
+      rewrite E. apply suffixb_app. }
+    rewrite Sx. destruct (q_bare_line_unsupported q); now rewrite orb_true_r.
   - cbn [line_ok] in H. apply andb_true_iff in H as [_ Hn]. destruct (names_parts t Hn) as (Hne & Hk & Hb).
     change ("ignore" ++ post_of (LSame c st (Names t)))%string with ("ignore" ++ "[" ++ t ++ "]")%string.
     rewrite (bracket_hit true "ignore" t eq_refl Hne Hb). apply check_bracket_named.
 Qed.
 
 (* ---------- next-line marker and rule list ---------- *)
-Lemma next_marker_feature q l : line_ok l = true -> line_avoids q l = true ->
+Lemma next_marker_feature q l : line_ok l = true ->
   has_ignore_next_line_marker q (render_line l) = match l with LNext _ _ _ => true | _ => false end.
 Proof.
-  intros H A. unfold has_ignore_next_line_marker, marker.
-  change next_marker_lowered with false.
-  change (both_styles next_marker_needles) with (needles_of hash_slash_tags "-next-line").
-  change next_marker_needles with (needles_of hash_tags "-next-line").
+  intros H. unfold has_ignore_next_line_marker, marker.
+  change next_marker_lowered with true.
+  change (both_styles next_marker_needles) with (needles_of hash_slash_tags8 "-next-line").
+  change next_marker_needles with (needles_of hash_slash_tags "-next-line").
   destruct l as [c|c st n|ind st n|ind st br n|ind st|st n].
   - cbn [line_ok] in H. unfold code_ok in H. apply andb_true_iff in H as [Hk _]. cbn [render_line].
-    destruct (q_next_line_hash_only q); [apply any_raw_absent; [reflexivity|]|]; now apply any_plain.
-  - destruct (q_next_line_hash_only q); [apply any_raw_absent; [reflexivity|]|]; apply any_absent; try assumption; try reflexivity; post_head.
-  - unfold line_avoids in A. apply andb_true_iff in A as [_ A].
-    destruct (q_next_line_hash_only q) eqn:Q.
-    + destruct st; [|discriminate]. cbn [render_line cm].
-      unfold any_contains, needles_of, hash_tags. cbn [map existsb].
-      rewrite (containsb_app_r ("# thailint: " ++ K ++ "-next-line") ind ("#" ++ " thailint: ignore-next-line" ++ names_br n)); [reflexivity|].
-      apply containsb_prefix. change ("#" ++ " thailint: ignore-next-line" ++ names_br n)%string with (("# thailint: " ++ K ++ "-next-line") ++ names_br n)%string.
-      apply prefixb_app.
+    destruct (q_next_line_hash_only q); now apply any_plain.
+  - destruct (q_next_line_hash_only q); apply any_absent; try assumption; try reflexivity; post_head.
+  - destruct (q_next_line_hash_only q).
     + apply (any_present _ _ _ (tagged st)); [reflexivity|apply tagged_in| |].
       * rewrite (lower_pre _ H). apply suffixb_app.
       * rewrite lower_post. apply prefixb_app.
-  - destruct (q_next_line_hash_only q); [apply any_raw_absent; [reflexivity|]|]; apply any_absent; try assumption; try reflexivity; post_head.
-  - destruct (q_next_line_hash_only q); [apply any_raw_absent; [reflexivity|]|]; apply any_absent; try assumption; try reflexivity; post_head.
-  - destruct (q_next_line_hash_only q); [apply any_raw_absent; [reflexivity|]|]; apply any_absent; try assumption; try reflexivity; post_head.
+    + apply (any_present _ _ _ (tagged st)); [reflexivity|apply tagged_in8| |].
+      * rewrite (lower_pre _ H). apply suffixb_app.
+      * rewrite lower_post. apply prefixb_app.
+  - destruct (q_next_line_hash_only q); apply any_absent; try assumption; try reflexivity; post_head.
+  - destruct (q_next_line_hash_only q); apply any_absent; try assumption; try reflexivity; post_head.
+  - destruct (q_next_line_hash_only q); apply any_absent; try assumption; try reflexivity; post_head.
 Qed.
 
 Lemma next_rules_feature q ind st n r : line_ok (LNext ind st n) = true ->
   matches_ignore_next_line_rules q (render_line (LNext ind st n)) r = named (bracket_rules n) r.
 Proof.
   intros H. unfold matches_ignore_next_line_rules.
-  change re_next_bracket with ("ignore-next-line", false). cbn [fst snd].
-  set (ci := if q_next_line_hash_only q then false else true).
+  change re_next_bracket with ("ignore-next-line", true). cbn [fst snd].
+  set (ci := if q_next_line_hash_only q then true else true).
   rewrite (bracket_at (LNext ind st n) ci "ignore-next-line" H eq_refl eq_refl).
   destruct n as [|t].
   - assert (E : re_bracket ci "ignore-next-line" ("ignore" ++ post_of (LNext ind st Bare)) = None) by (destruct ci; reflexivity).
